@@ -183,6 +183,45 @@ DATABASE = {
    "exprs": {"self.db_file": ("has_db_file", "bool")}},
  ]}
 
+# ---- groups that use the fold treatment of loops ----
+RT = "src/primaite/simulator/network/hardware/nodes/network/router.py"
+ROUTE = {
+ "enum_files": [RT],
+ "types": {"default_route": "optZ"},
+ "methods": [
+  {"path": RT, "cls": "RouteTable", "fn": "find_best_route", "ret": "optZ", "drop_params": ["destination_ip"],
+   "truthy_some": ["l_best_route", "default_route"],
+   "erase_locals": ["route_network", "destination_ip"],
+   "exprs": {"isinstance(destination_ip, IPv4Address)": ("destination_is_address", "bool")},
+   "folds": {"self.routes": {"items": "routes_items",
+                             "fields": {"destination_ip in route_network": ("route_covers", "bool"), "route_network.prefixlen": ("route_prefixlen", "Z")}}}},
+ ]}
+
+ACLLIST = {
+ "enum_files": [RT],
+ "types": {},
+ "methods": [
+  {"path": RT, "cls": "AccessControlList", "fn": "is_permitted", "ret": "bool*optZ", "drop_params": ["frame"],
+   "truthy_some": ["l_rule"],
+   "stmts": {"rule.match_count += 1": ("emit", 1, [])},
+   "folds": {"self._acl": {"items": "acl_items", "optional": True,
+                           "fields": {"_rule.permit_frame_check(frame)": [("rule_permits", "bool"), ("rule_matches", "bool")]}}}},
+ ]}
+
+RA = "src/primaite/game/agent/scripted_agents/random_agent.py"
+DM = "src/primaite/game/agent/scripted_agents/data_manipulation_bot.py"
+_ACT = {"('do-nothing', {})": ("false", "bool"), "default": ("true", "bool")}
+PERIODIC = {
+ "enum_files": [],
+ "methods": [
+  {"path": RA, "cls": "PeriodicAgent", "fn": "_set_next_execution_timestep", "ret": "unit",
+   "exprs": {"random.randint(-variance, variance)": ("draw", "Z")}},
+  {"path": RA, "cls": "PeriodicAgent", "fn": "get_action", "ret": "bool", "drop_params": ["obs"], "returns": _ACT,
+   "calls": {"self._set_next_execution_timestep": ("fn", "PeriodicAgent._set_next_execution_timestep")}},
+  {"path": DM, "cls": "DataManipulationAgent", "fn": "get_action", "ret": "bool", "drop_params": ["obs"], "returns": _ACT,
+   "calls": {"self._set_next_execution_timestep": ("fn", "PeriodicAgent._set_next_execution_timestep")}},
+ ]}
+
 GROUPS = {
  "software": dict(SOFTWARE, gen="Gen/GenSoftware.v", eq="Proofs/GenEqSoftware.vo"),
  "killchain": dict(KILLCHAIN, gen="Gen/GenKillChain.v", eq="Proofs/GenEqKillChain.vo"),
@@ -193,6 +232,9 @@ GROUPS = {
  "folder": dict(FOLDER, gen="Gen/GenFolder.v", eq="Proofs/GenEqFolder.vo"),
  "request": dict(REQUEST, gen="Gen/GenRequest.v", eq="Proofs/GenEqRequest.vo"),
  "dbservice": dict(DATABASE, gen="Gen/GenDatabase.v", eq="Proofs/GenEqDatabase.vo"),
+ "routetable": dict(ROUTE, gen="Gen/GenRoute.v", eq="Proofs/GenEqRoute.vo"),
+ "acllist": dict(ACLLIST, gen="Gen/GenAclList.v", eq="Proofs/GenEqAclList.vo"),
+ "periodic": dict(PERIODIC, gen="Gen/GenPeriodic.v", eq="Proofs/GenEqPeriodic.vo"),
 }
 for _g in GROUPS.values():
     _g["functions"] = ["%s.%s" % (m["cls"], m["fn"]) for m in _g["methods"]]
